@@ -40,6 +40,8 @@ func main() {
 			knownFile: *known, seed: seed, noEvidence: *noev, dumpAll: *dump}))
 	case "errsets":
 		dumpErrSets("/repo")
+	case "fsm":
+		dumpFSM("/repo", os.Args[2])
 	case "list":
 		var ks []string
 		for k := range props {
